@@ -118,7 +118,7 @@ prop('C06',
      'DESIGN.md 3.8 (SP1-SP3), 3.6 (IX4), 4 C06')
 
 prop('C07',
-     [SC.pd6, T.ix4, ST.at1, RG.ix1, RG.ix2a, MO.ix2s, MO.ix6, MO.ix7, MO.ix8, MO.ix9, MO.pg1, MI.tx1],
+     [SC.pd6, T.ix4, ST.at1, RG.ix1, RG.ix2a, MO.ix2s, MO.ix6, MO.ix7, MO.ix8, MO.ix9, MO.ix10, MO.pg1, MI.tx1],
      'progress of the scanner on every path (PD6: the scan position strictly increases, with '
      'bounds of next()/find() results), well-formed tables (IX4)',
      'decides termination of the scanner and table well-formedness; further index-safety rules '
